@@ -154,7 +154,7 @@ def walk(name, n, seed, length, led, clauses, tier="quick", with_evolve=True):
                       key + ("value",), fields, rep)
 
     ops = ["add", "sub", "scale", "conj", "copy", "canonicalise", "compress_copy", "apply_H", "apply_charged", "move_centre",
-           "expectation", "mutate_result", "normalize_copy", "distance", "to_complex"]
+           "expectation", "mutate_result", "normalize_copy", "distance", "to_complex", "prefactor_copy", "norm_to_coeff_copy"]
     if with_evolve:
         ops += ["evolve", "evolve"]
     for step in range(length):
@@ -215,8 +215,10 @@ def walk(name, n, seed, length, led, clauses, tier="quick", with_evolve=True):
                 pool.append(new)
                 audit(op, "MatrixProduct.compress", new=new, expected_sector=A.sector)
             elif op == "apply_H":
-                hist.append(f"H@{A.tag}")
-                new = Live(H.apply(A.obj), f"#{step}:H@")
+                hg = ["fresh", "cano", "compress", "center"][int(rng.integers(4))]
+                hist.append(f"H[{hg}]@{A.tag}")
+                Hg = S.apply_gauge(H, hg, int(rng.integers(n))) if hg != "fresh" else H
+                new = Live(Hg.apply(A.obj), f"#{step}:H@")
                 pool.append(new)
                 audit(op, "Mpo.apply", new=new, expected=Hd @ A.dense, expected_sector=A.sector)
             elif op == "apply_charged" and charged:
@@ -263,6 +265,25 @@ def walk(name, n, seed, length, led, clauses, tier="quick", with_evolve=True):
                 new = Live(c, f"#{step}:normalized")
                 pool.append(new)
                 audit(op, "Mps.normalize", new=new, expected=A.dense / max(np.linalg.norm(A.dense), 1e-300), expected_sector=A.sector)
+            elif op == "prefactor_copy":
+                # a copy that carries part of the vector in the scalar prefactor (public attribute coeff): later sums / distances fold it into the tensors
+                c = [0.6, -1.5, 0.8j][int(rng.integers(3))]
+                hist.append(f"copy({A.tag}) with coeff *= {c}")
+                b = A.obj.copy()
+                if isinstance(c, complex) and hasattr(b, "to_complex"):
+                    b = b.to_complex()
+                b.coeff = b.coeff * c
+                new = Live(b, f"#{step}:coeff")
+                pool.append(new)
+                audit(op, "Mps.coeff", new=new, expected=c * A.dense, expected_sector=A.sector)
+            elif op == "norm_to_coeff_copy":
+                hist.append(f"copy({A.tag}).normalize('mps_norm_to_coeff')")
+                if np.linalg.norm(A.dense) > 1e-8:
+                    b = A.obj.copy()
+                    b.normalize("mps_norm_to_coeff")
+                    new = Live(b, f"#{step}:norm2coeff")
+                    pool.append(new)
+                    audit(op, "Mps.normalize", new=new, expected=A.dense, expected_sector=A.sector)
             elif op == "evolve":
                 meth = EVOLVE_METHODS[int(rng.integers(len(EVOLVE_METHODS)))]
                 imag = rng.random() < 0.3
